@@ -236,6 +236,9 @@ class Engine:
         en = getattr(self, "entry_pc_len", None)
         m["entry_n"] = en if en is not None and not self.guards else None
         extra_terms = list(extra_terms) + self.hint_terms()
+        cc = getattr(self, "cur_con", None)
+        if cc is not None and getattr(cc, "inst_rounds", None):
+            m.setdefault("rounds", cc.inst_rounds)
         vc = VC(name, hyps, list(self.st.schemas) + self.reg.global_schemas(self), goal, extra_terms, m)
         vc._keep = hyps  # keep z3 refs alive
         self.vcs.append(vc)
